@@ -39,6 +39,8 @@ import Operon.Model.Wiring
                                             look-alike of TypedValue, a tuple): an opaque payload code >= 1000, passed on
                                             unchanged
   … p:typedsub:dt:il:k                      an instance of a SUBCLASS of TypedValue: labelled like `typed`
+  … p:typedv:dt:il:KIND / ext M P typedv dt il KIND    a labelled value whose payload is one of those objects
+  exec E with E = i1 | i0 | s1 | s0 | n0    enforce_static_checks given as 1, 0, "no" (truthy), "", None: its truth value counts
   flow sdt sil ddt dil                      can_flow_to / require_flow_to
   cout|cin raw k pdt pil | typed dt il k pdt pil     _coerce_output / _coerce_input
 -/
@@ -86,6 +88,7 @@ def parseScriptEntry (t : String) : Option (Nat × Val) :=
   | [p, "rawv", k] => if kindCode k = 0 then none else some (natD p, .raw (kindCode k))
   | [p, "typed", dt, il, k] => some (natD p, .typed ⟨natD dt, natD il, natD k⟩)
   | [p, "typedsub", dt, il, k] => some (natD p, .typed ⟨natD dt, natD il, natD k⟩)
+  | [p, "typedv", dt, il, k] => if kindCode k = 0 then none else some (natD p, .typed ⟨natD dt, natD il, kindCode k⟩)
   | _ => none
 
 /-- the scripted handler: payloads depend on the inputs so that mis-routed values are visible -/
@@ -97,7 +100,7 @@ def mkHandler : Script → Handler
     .ret (outs.map fun (p, v) =>
       (p, match v with
           | .raw k => if k ≥ 1000 then .raw k else .raw ((3 * s + k) % 1000)   -- codes >= 1000: constant objects
-          | .typed t => .typed ⟨t.dt, t.il, (3 * s + t.payload) % 1000⟩))
+          | .typed t => .typed ⟨t.dt, t.il, if t.payload ≥ 1000 then t.payload else (3 * s + t.payload) % 1000⟩))
 
 def handlerTable (hs : List (Nat × Script)) : Nat → Option Handler :=
   fun n => (hs.lookup n).map mkHandler
@@ -136,6 +139,8 @@ def showCalls (cs : List Call) : String :=
 def parseVal : List String → Option (Val × List String)
   | "raw" :: k :: rest => some (.raw (natD k), rest)
   | "rawv" :: k :: rest => if kindCode k = 0 then none else some (.raw (kindCode k), rest)
+  | "typedv" :: dt :: il :: k :: rest =>
+    if kindCode k = 0 then none else some (.typed ⟨natD dt, natD il, kindCode k⟩, rest)
   | "typed" :: dt :: il :: k :: rest => some (.typed ⟨natD dt, natD il, natD k⟩, rest)
   | _ => none
 
@@ -167,9 +172,13 @@ def parseScript (kind : String) (rest : List String) : Option Script :=
     else none
   | _ => some (.ret (rest.filterMap parseScriptEntry))
 
+/-- the truth value of the `enforce_static_checks` argument: "d" = left at its default (True); i1 / s1 = truthy
+    non-bools (1, a non-empty string), i0 / s0 / n0 = falsy ones (0, "", None) -/
+def enforceOf (e : String) : Bool := e == "d" || e == "i1" || e == "s1" || boolOf e
+
 /-- `execute` of the executor whose handler table is `hs` -/
 def runExec (st : DSt) (hs : List (Nat × Script)) (e : String) : String :=
-  let r := execute st.d (handlerTable hs) st.ext (e == "d" || boolOf e)   -- "d": the default, True
+  let r := execute st.d (handlerTable hs) st.ext (enforceOf e)
   let isMut (n : Nat) : Bool := match hs.lookup n with | some (.ret _ _ true) => true | _ => false
   let isRe (n : Nat) : Bool := match hs.lookup n with | some (.ret _ true _) => true | _ => false
   match r.out with
@@ -194,7 +203,7 @@ def runExec (st : DSt) (hs : List (Nat × Script)) (e : String) : String :=
       ++ (if inner.isEmpty then [] else ["inner=" ++ showSemi inner]))
 
 def execTag (st : DSt) (hs : List (Nat × Script)) (e : String) : String :=
-  match (execute st.d (handlerTable hs) st.ext (e == "d" || boolOf e)).out with
+  match (execute st.d (handlerTable hs) st.ext (enforceOf e)).out with
   | .ok _ => "ok"
   | .error e => errTag e
 
@@ -241,8 +250,14 @@ def step (st : DSt) (toks : List String) : DSt × String :=
       let cur := (st.ext.lookup (natD m)).getD []
       ({ st with ext := setKey (natD m) (setKey (natD p) v cur) st.ext }, "ok ## ext")
     | _ => (st, "bad-op")
-  | ["exec", e] => (st, runExec st st.hs e ++ " ## exec:" ++ execTag st st.hs e)
-  | ["exec2", e] => (st, runExec st st.hs2 e ++ " ## exec2 exec:" ++ execTag st st.hs2 e)
+  | ["exec", e] =>
+    if ["1", "0", "d", "i1", "i0", "s1", "s0", "n0"].contains e then
+      (st, runExec st st.hs e ++ " ## exec:" ++ execTag st st.hs e)
+    else (st, "bad-op")
+  | ["exec2", e] =>
+    if ["1", "0", "d", "i1", "i0", "s1", "s0", "n0"].contains e then
+      (st, runExec st st.hs2 e ++ " ## exec2 exec:" ++ execTag st st.hs2 e)
+    else (st, "bad-op")
   | ["caps"] => (st, showList ((sortNat st.d.requiredCaps).map toString) ++ " ## caps")
   | ["caps2"] => (st, showList ((sortNat st.d2.requiredCaps).map toString) ++ " ## caps2")
   | "capsmut" :: _ => (st, "ok ## capsmut")     -- the caller mutates the set it was handed: no effect on anything
